@@ -20,7 +20,7 @@
 //
 // In the thorough tier the conc workload is additionally run in a child process
 // built with -race (support, not proof); a race report becomes the line
-// (conc race) (cobs 0 0 race).
+// (conc race) (cobs 0 0 race <report>).
 package main
 
 import (
@@ -299,7 +299,27 @@ func libraryGoroutines(id string) int {
 	return n
 }
 
+// Once a failure mode has been seen often, later cases wait less for it: a broken
+// tree must not make the run take hours (the first failures are the patient ones,
+// and they are what the replay file keeps).
+var leaksSeen, hangsSeen atomic.Int64
+
+func shrink(d time.Duration, seen int64) time.Duration {
+	switch {
+	case seen < 8:
+		return d
+	case seen < 64:
+		return d / 10
+	default:
+		return d / 50
+	}
+}
+
+// tooBroken: enough hangs have been recorded; the rest of the run is skipped.
+func tooBroken() bool { return hangsSeen.Load() >= 100 }
+
 func leaked(id string, patience time.Duration) bool {
+	patience = shrink(patience, leaksSeen.Load())
 	deadline := time.Now().Add(patience)
 	d := 50 * time.Microsecond
 	for {
@@ -317,6 +337,7 @@ func leaked(id string, patience time.Duration) bool {
 					}
 				}
 			}
+			leaksSeen.Add(1)
 			return true
 		}
 		time.Sleep(d)
@@ -399,7 +420,8 @@ func runUpload(sc script, watchdog time.Duration) string {
 	select {
 	case o := <-ch:
 		return sc.Sx() + " " + o.Sx()
-	case <-time.After(watchdog):
+	case <-time.After(shrink(watchdog, hangsSeen.Load())):
+		hangsSeen.Add(1)
 		return sc.Sx() + " " + upObs{closeRes: "none", hang: true}.Sx()
 	}
 }
@@ -525,9 +547,9 @@ func uploadScripts(rng *hx.Rand, thorough bool) []script {
 		}
 	}
 	// (3) random scripts: random chunkings (zero-length writes included), any status
-	nrand, nhttp := 3000, 300
+	nrand, nhttp := 8000, 800
 	if thorough {
-		nrand, nhttp = 30000, 3000
+		nrand, nhttp = 40000, 4000
 	}
 	statuses := []int{200, 201, 202, 204, 207, 226, 299, 300, 304, 400, 401, 403, 404, 405, 409, 412, 413, 423, 500, 502, 503, 507, 599}
 	for i := 0; i < nrand+nhttp; i++ {
@@ -891,7 +913,8 @@ func runConc(w workload, watchdog time.Duration) string {
 	}()
 	select {
 	case <-finished:
-	case <-time.After(watchdog):
+	case <-time.After(shrink(watchdog, hangsSeen.Load())):
+		hangsSeen.Add(1)
 		return w.Sx() + " " + hx.L("cobs", "0", "1")
 	}
 	items := []string{"cobs", hx.B(stray), "0"}
@@ -906,10 +929,10 @@ var segNames = []string{"a", "b", "c"}
 func randTree(rng *hx.Rand, depth int) *davx.Node {
 	d := davx.Dir()
 	for _, n := range segNames {
-		switch rng.Intn(4) {
-		case 0:
+		switch rng.Intn(6) {
+		case 0, 1:
 			d.Put(n, davx.File(rng.Pick([]string{"x", "y", "", "hello"})))
-		case 1:
+		case 2, 3:
 			if depth > 0 {
 				d.Put(n, randTree(rng, depth-1))
 			} else {
@@ -921,11 +944,14 @@ func randTree(rng *hx.Rand, depth int) *davx.Node {
 }
 
 func randPath(rng *hx.Rand, allowEmpty bool) []string {
-	n := 1 + rng.Intn(2)
-	if rng.Chance(1, 8) {
+	n := 1
+	if rng.Chance(2, 5) {
+		n = 2
+	}
+	if rng.Chance(1, 14) {
 		n = 3
 	}
-	if allowEmpty && rng.Chance(1, 12) {
+	if allowEmpty && rng.Chance(1, 25) {
 		n = 0
 	}
 	var q []string
@@ -979,11 +1005,14 @@ func randWorkload(rng *hx.Rand, transport string, maxClients, maxOps int) worklo
 	return w
 }
 
-func concWorkloads(rng *hx.Rand, thorough bool) []workload {
+func concWorkloads(rng *hx.Rand, thorough bool, scale int) []workload {
 	var out []workload
-	nIn, nHTTP := 500, 120
+	nIn, nHTTP := 1500, 300
 	if thorough {
-		nIn, nHTTP = 5000, 1200
+		nIn, nHTTP = 8000, 1500
+	}
+	if scale == 0 { // the -race child: slower by an order of magnitude
+		nIn, nHTTP = 400, 100
 	}
 	for i := 0; i < nIn; i++ {
 		out = append(out, randWorkload(rng, "inproc", 6, 12))
@@ -1012,6 +1041,10 @@ func runConcAll(ws []workload, sink *hx.Sink, watchdog time.Duration) {
 	procs := []int{1, 2, 4, 8}
 	old := runtime.GOMAXPROCS(0)
 	for i, w := range ws {
+		if tooBroken() {
+			fmt.Fprintln(os.Stderr, "c18: 100 hangs recorded, remaining workloads skipped")
+			break
+		}
 		runtime.GOMAXPROCS(procs[i%len(procs)])
 		sink.Put(runConc(w, watchdog))
 	}
@@ -1019,7 +1052,7 @@ func runConcAll(ws []workload, sink *hx.Sink, watchdog time.Duration) {
 }
 
 // raceSoak builds this command with -race and runs the conc workload in it; a race
-// report yields the line "(conc race) (cobs 0 0 race)".
+// report yields the line "(conc race) (cobs 0 0 race <report>)".
 func raceSoak(sink *hx.Sink) {
 	scratch := os.Getenv("VERIF_SCRATCH")
 	if scratch == "" {
@@ -1036,6 +1069,7 @@ func raceSoak(sink *hx.Sink) {
 	outFile := filepath.Join(scratch, "c18-race.cases")
 	defer os.Remove(outFile)
 	raced := false
+	report := ""
 	for _, procs := range []string{"1", "2", "16"} {
 		cmd := exec.Command(exe, "-mode", "racechild", "-out", outFile)
 		cmd.Env = append(os.Environ(), "GOMAXPROCS="+procs, "GORACE=halt_on_error=0")
@@ -1049,13 +1083,19 @@ func raceSoak(sink *hx.Sink) {
 				rep = rep[:6000]
 			}
 			fmt.Fprintf(os.Stderr, "c18: race detector report (GOMAXPROCS=%s):\n%s\n", procs, rep)
+			if report == "" {
+				if len(rep) > 2500 {
+					rep = rep[:2500]
+				}
+				report = rep
+			}
 		}
 		for _, l := range hx.ReadLines(outFile) {
 			sink.Put(l)
 		}
 	}
 	if raced {
-		sink.Put("(conc race) (cobs 0 0 race)")
+		sink.Put("(conc race) " + hx.L("cobs", "0", "0", "race", hx.S(report)))
 	} else {
 		sink.Put("(conc race) (cobs 0 0 clean)")
 	}
@@ -1093,7 +1133,7 @@ func main() {
 
 	rng := hx.NewRand(hx.Seed())
 	if *mode == "racechild" {
-		ws := concWorkloads(rng.Fork(2), false)
+		ws := concWorkloads(rng.Fork(2), false, 0)
 		for _, w := range ws {
 			sink.Put(runConc(w, 120*time.Second))
 		}
@@ -1114,6 +1154,10 @@ func main() {
 			}()
 		}
 		for _, s := range scripts {
+			if tooBroken() {
+				fmt.Fprintln(os.Stderr, "c18: 100 hangs recorded, remaining upload cases skipped")
+				break
+			}
 			in <- s
 		}
 		close(in)
@@ -1121,7 +1165,7 @@ func main() {
 		fmt.Fprintf(os.Stderr, "c18: %d upload cases\n", len(scripts))
 	}
 	if *mode == "conc" || *mode == "all" {
-		ws := concWorkloads(rng.Fork(2), thorough)
+		ws := concWorkloads(rng.Fork(2), thorough, 1)
 		runConcAll(ws, sink, concWatchdog)
 		fmt.Fprintf(os.Stderr, "c18: %d concurrent workloads\n", len(ws))
 		if thorough {
